@@ -13,6 +13,7 @@ use crate::utils::ziggurat;
 use crate::{Distribution, ziggurat_tables};
 use core::fmt;
 use num_traits::Float;
+use rand::distr::OpenClosed01;
 use rand::{Rng, RngExt};
 
 /// The standard exponential distribution `Exp(1)`.
@@ -71,7 +72,7 @@ impl Distribution<f64> for Exp1 {
         }
         #[inline]
         fn zero_case<R: Rng + ?Sized>(rng: &mut R, _u: f64) -> f64 {
-            ziggurat_tables::ZIG_EXP_R - rng.random::<f64>().ln()
+            ziggurat_tables::ZIG_EXP_R - rng.sample::<f64, _>(OpenClosed01).ln()
         }
 
         ziggurat(
